@@ -114,6 +114,7 @@ class BaseSpectrum:
         'Box1D': 'x_0',
         'BrokenPowerLaw1D': 'x_break',
         'Empirical1D': 'points',
+        'ExtinctionModel1D': 'points',
         'ExponentialCutoffPowerLaw1D': 'x_0',
         'Gaussian1D': 'mean',
         'GaussianAbsorption1D': 'mean',
